@@ -21,9 +21,18 @@ def Inv {σ} (c : Conn σ) : Prop :=
   (c.stopWithError = true → c.discard = true) ∧
   (c.state = .closed → c.clientAware = false ∧ c.response = none) ∧
   (c.clientAware = false → c.state.toNat ≤ 5 → c.ctx = none ∧ c.upOff = 0) ∧
-  (c.inCleanup = true → c.state = .closed) ∧
+  (c.inCleanup = true → 22 ≤ c.state.toNat ∧ c.clientAware = false ∧ c.response = none) ∧
   (6 ≤ c.state.toNat → c.state.toNat ≤ 12 → c.clientAware = true) ∧
-  (c.state.toNat ≤ 1 → c.clientAware = false)
+  (c.state.toNat ≤ 1 → c.clientAware = false) ∧
+  (c.stopWithError = true → c.response = none ∨ c.response = some errResp) ∧
+  (c.clientAware = false → c.response = none ∨ c.response = some errResp)
+
+/-- a response is queued, or the connection has been handed over by an upgrade response -/
+def respOrUpg {σ} (c : Conn σ) : Bool := c.response.isSome || decide (c.state.toNat = 23)
+
+theorem respOrUpg_of_none {σ} (c : Conn σ) (h : c.response = none) (hs : c.state.toNat ≤ 22) : respOrUpg c = false := by
+  have : c.state.toNat ≠ 23 := by omega
+  simp [respOrUpg, h, this]
 
 /-- the refinement relation between the connection and the protocol automaton -/
 def Rel {σ} (c : Conn σ) : PSt → Prop
@@ -32,7 +41,7 @@ def Rel {σ} (c : Conn σ) : PSt → Prop
   | .bad => False
   | .idle => c.started = true ∧ c.cleaned = false ∧ c.clientAware = false ∧ Inv c
   | .req r => c.started = true ∧ c.cleaned = false ∧ c.clientAware = true ∧ Inv c ∧
-      r.ctx = c.ctx ∧ r.nextOff = c.upOff ∧ r.replied = c.response.isSome ∧ r.failed = false ∧
+      r.ctx = c.ctx ∧ r.nextOff = c.upOff ∧ r.replied = respOrUpg c ∧ r.failed = false ∧
       r.site.rank ≤ stateSite c.state ∧ (r.handlerSeen = false → c.state.toNat ≤ 5 ∨ r.replied = true)
 
 /-! ### the automaton, one transition at a time (all by `rfl`) -/
@@ -54,6 +63,10 @@ def Rel {σ} (c : Conn σ) : PSt → Prop
 @[simp] theorem step_idle_invalidate : Protocol.step .idle .invalidate = .idle := rfl
 @[simp] theorem step_idle_freeCb (n : Nat) : Protocol.step .idle (.freeCb n) = .idle := rfl
 @[simp] theorem step_req_freeCb (q : ReqSt) (n : Nat) : Protocol.step (.req q) (.freeCb n) = .req q := rfl
+@[simp] theorem step_req_interimSent (q : ReqSt) :
+    Protocol.step (.req q) .interimSent = if q.replied then .req { q with replied := false, site := .first } else .bad := rfl
+@[simp] theorem step_req_upgrade (q : ReqSt) :
+    Protocol.step (.req q) .upgrade = if q.replied then .req q else .bad := rfl
 @[simp] theorem step_closed_freeCb (n : Nat) : Protocol.step .closed (.freeCb n) = .closed := rfl
 
 /-- weak precondition of the closing functions -/
@@ -90,7 +103,7 @@ theorem Rel.toOpen {σ} {c : Conn σ} {p : PSt} (h : Rel c p) (hs : c.started = 
 
 theorem Rel.stopDiscard {σ} {c : Conn σ} {p : PSt} (h : Rel c p) (hs : c.started = true) (hc : c.cleaned = false) :
     c.stopWithError = true → c.discard = true := by
-  cases p <;> simp_all [Rel, Inv]
+  cases p <;> simp_all [Rel, Inv, respOrUpg]
 
 theorem closeError_rel {σ} (c : Conn σ) (p : PSt) (h : Open c p) :
     Rel (closeError c).1 (Protocol.run p (closeError c).2) ∧
@@ -109,9 +122,9 @@ theorem cleanupConnection_rel {σ} (c : Conn σ) (p : PSt) (h : Rel c p) (hst : 
   unfold cleanupConnection
   by_cases hi : c.inCleanup = true
   · simp [hi, h]
-  · have hr : c.response = none := by cases p <;> simp_all [Rel, Inv]
+  · have hr : c.response = none := by cases p <;> simp_all [Rel, Inv, respOrUpg]
     simp [hi, dropResp, hr]
-    cases p <;> simp_all [Rel, Inv] <;> grind
+    cases p <;> simp_all [Rel, Inv, respOrUpg] <;> grind
 
 /-- the environment does not exercise a path that is known to be defective in an unrepaired tree -/
 def EnvOk (cfg : Cfg) (env : IdleEnv) : Prop :=
@@ -133,7 +146,7 @@ theorem connectionReset_rel {σ} (c : Conn σ) (p : PSt) (reuse : Bool) (h : Rel
     simp only [Bool.not_false, if_true]
     rw [h2] at h1
     simp only [h2]
-    simp only [Rel, Inv] at h1 ⊢
+    simp only [Rel, Inv, respOrUpg] at h1 ⊢
     simp_all []
   | true =>
     have hd := hre rfl
@@ -143,14 +156,14 @@ theorem connectionReset_rel {σ} (c : Conn σ) (p : PSt) (reuse : Bool) (h : Rel
       obtain ⟨_, _, ha, hinv⟩ := h
       simp only [Inv] at hinv
       cases hr : c.response with
-      | none => simp_all [Rel, Inv]
-      | some r => by_cases hf : r.freeCb <;> simp_all [Rel, Inv]
+      | none => simp_all [Rel, Inv, respOrUpg]
+      | some r => by_cases hf : r.freeCb <;> simp_all [Rel, Inv, respOrUpg]
     | .req q, h =>
       obtain ⟨_, _, ha, hinv, hx, _⟩ := h
       simp only [Inv] at hinv
       cases hr : c.response with
-      | none => simp_all [Rel, Inv]
-      | some r => by_cases hf : r.freeCb <;> simp_all [Rel, Inv]
+      | none => simp_all [Rel, Inv, respOrUpg]
+      | some r => by_cases hf : r.freeCb <;> simp_all [Rel, Inv, respOrUpg]
     | .fresh, h => simp_all [Rel]
     | .closed, h => simp_all [Rel]
 
@@ -193,7 +206,8 @@ theorem transmitError_eq {σ} (cfg : Cfg) (env : IdleEnv) (c : Conn σ) (p : PSt
     simp only [Inv] at hinv
     cases hq : c.inCleanup
     · rfl
-    · have := hinv.2.2.2.2.2.1 hq; rw [this] at hst; simp at hst
+    · have := (hinv.2.2.2.2.2.1 hq).1; omega
+  have hrou : respOrUpg c = false := respOrUpg_of_none c hresp (by omega)
   have hop : ∀ (c' : Conn σ), c'.started = c.started → c'.cleaned = c.cleaned → c'.clientAware = c.clientAware →
       c'.ctx = c.ctx → Open c' p := by
     intro c' e1 e2 e3 e4
@@ -253,11 +267,11 @@ theorem transmitError_eq {σ} (cfg : Cfg) (env : IdleEnv) (c : Conn σ) (p : PSt
         · simp only [h2, Bool.false_eq_true, if_false] at heq
           simp only [Inv] at hinv
           by_cases haw : c.clientAware = true <;> simp [haw] at heq <;> obtain ⟨rfl, rfl⟩ := heq <;>
-            cases p <;> simp_all [Rel, Inv, errResp, stateSite]
+            cases p <;> simp_all [Rel, Inv, respOrUpg, errResp, stateSite]
       · simp only [h1, Bool.false_eq_true, if_false] at heq
         simp only [Inv] at hinv
         simp at heq
         obtain ⟨rfl, rfl⟩ := heq
-        cases p <;> simp_all [Rel, Inv, errResp, stateSite] <;> grind
+        cases p <;> simp_all [Rel, Inv, respOrUpg, errResp, stateSite] <;> grind
 
 end Mhd.ConnSM
